@@ -358,7 +358,19 @@ impl<'a> Gen<'a> {
             4 => (E::Bytes(policy_bytes(0x11)), self.param("b", Type::Bytes)),
             _ => (self.param("b", Type::Bytes), E::Bytes(b"t1".to_vec())),
         };
-        tir::AssetExpr { policy, asset_name: name, amount: self.int(d.saturating_sub(1)) }
+        // untyped streams: now and then a constant amount that is no number (what a datum field of
+        // untrusted UTxO content can put there), under every arithmetic operator alike
+        let amount = if self.wild && self.r.chance(1, 5) {
+            match self.r.below(4) {
+                0 => E::String("1".into()),
+                1 => E::Bytes(vec![0xde, 0xad]),
+                2 => E::Bool(true),
+                _ => E::None,
+            }
+        } else {
+            self.int(d.saturating_sub(1))
+        };
+        tir::AssetExpr { policy, asset_name: name, amount }
     }
 
     pub fn assets(&mut self, d: u32) -> E {
